@@ -25,6 +25,11 @@
 #else
 #define IF_CAPO3(x)
 #endif
+/* SCOPE: which part of 0 <= nown0 <= nown <= CAPO this instance covers (the loop over the new vectors runs downwards from num()-1
+ * in doAddRows and upwards from oldNumber in doAddCols: fixing that end keeps the vector numbers concrete in the unwound loop) */
+#ifndef SCOPE
+#define SCOPE 1
+#endif
 const int* gp_E; int g_cse_calls;
 int g_v, g_p, g_k, g_h, g_hp, g_hidx, g_hexp, g_x, g_xo, g_xoidx, g_xn, g_cnt_k, g_cnt_x; R g_val, g_expect, g_hval, g_xoval, g_a, g_b, g_o, g_ha, g_hb, g_ho;
 
@@ -57,7 +62,7 @@ __CPROVER_requires(__CPROVER_is_fresh(xm_i, CAPX * WX * sizeof(int)) && __CPROVE
 __CPROVER_requires(__CPROVER_is_fresh(a, CAPO * sizeof(R)) && __CPROVER_is_fresh(b, CAPO * sizeof(R)) && __CPROVER_is_fresh(o, CAPO * sizeof(R)))
 __CPROVER_requires(__CPROVER_is_fresh(ownexp, CAPO * sizeof(int)) && __CPROVER_is_fresh(crossexp, CAPX * sizeof(int)))
 __CPROVER_requires(__CPROVER_is_fresh(cnt, CAPX * sizeof(int)) && __CPROVER_is_fresh(E, CAPO * sizeof(int)))
-__CPROVER_requires(0 <= nown0 && nown0 <= nown && nown <= CAPO && 0 <= ncross && ncross <= CAPX && scale && g_cse_calls == 0)
+__CPROVER_requires(0 <= nown0 && nown0 <= nown && nown <= CAPO && (SCOPE) && 0 <= ncross && ncross <= CAPX && scale && g_cse_calls == 0)
 /* S1, S2 at every new own vector; S3 at every cross vector */
 __CPROVER_requires(S1_AT(0) && S1_AT(1) IF_CAPO3(&& S1_AT(2)))
 __CPROVER_requires(S3_AT(0) && S3_AT(1))
